@@ -1410,6 +1410,487 @@ def validate_connect_spec(ctx: Ctx, st: Optional[LeanStatus], res: Result) -> No
     res.extra["connect_kwarg_spec"] = out
 
 
+
+# --------------------------------------------------------------------------------------------
+# the GENERATED subscription method (client_generators/client.py) on real generated packages
+# --------------------------------------------------------------------------------------------
+# A generated-case is {"kind": "generated", "schema": sdl, "ops": text, "config": {...}, "ot_tracer": bool,
+#   "cfg": <entry of CFG_TABLE + init>, "operations": [{"name", "field", "fragments": [...], "vars": [{"name", "type"}],
+#   "calls": [{gql variable name: value spec}], "data": [<next payload data>, ...]}]}
+# value spec: ["str", s] ["num", n] ["bool", b] ["null"] ["list", [spec...]] ["enum", EnumName, member]
+#             ["input", InputName, {graphql field name: spec}];   an omitted variable = argument left UNSET
+
+GEN_SDL_HEAD = """
+type Query { ping: String }
+type Hit { id: ID! title: String! score: Int tags: [String!] }
+enum Kind { A B }
+input Range { lo: Int hi: Int }
+input Filter { text: String! tagList: [String!] max: Int kind: Kind nested: Range }
+"""
+GEN_FRAGMENTS = {
+    "HitParts": "fragment HitParts on Hit { score }",
+    "HitMore": "fragment HitMore on Hit { tags ...HitParts }",
+}
+CLASH_NAMES = ["query", "variables", "response", "data"]
+PLAIN_NAMES = ["topic", "limit", "first", "userId", "filterInput", "after", "in", "from", "id", "type"]
+UNDERSCORED = ["_query", "_variables", "_data", "_response"]
+GEN_TYPES = ["String!", "String", "Int", "Int!", "Boolean", "ID!", "[String!]", "Filter", "Filter!", "[Filter!]", "Kind", "Kind!"]
+FILTER_VALUES = [
+    ["input", "Filter", {"text": ["str", "t"]}],
+    ["input", "Filter", {"text": ["str", ""], "tagList": ["list", [["str", "x"], ["str", "y"]]], "max": ["null"]}],
+    ["input", "Filter", {"text": ["str", "q"], "kind": ["enum", "Kind", "B"], "nested": ["input", "Range", {"lo": ["num", 1]}], "max": ["num", 0]}],
+]
+
+
+def gen_value(rng: Any, typ: str) -> List[Any]:
+    base = typ.rstrip("!")
+    if base.startswith("["):
+        inner = base[1:-1]
+        return ["list", [gen_value(rng, inner) for _ in range(rng.randint(0, 2))]]
+    if base in ("String", "ID"):
+        return ["str", rng.choice(["needle", "", "id-7", "subscription X { y }"])]
+    if base == "Int":
+        return ["num", rng.choice([0, 3, -1])]
+    if base == "Boolean":
+        return ["bool", rng.choice([True, False])]
+    if base == "Kind":
+        return ["enum", "Kind", rng.choice(["A", "B"])]
+    if base == "Filter":
+        return rng.choice(FILTER_VALUES)
+    raise common.Infra(f"gen_value: {typ}")
+
+
+def value_expected(spec: List[Any]) -> Any:
+    """the oracle's reading of 'serialised': GraphQL names, enum member names, only the given input fields"""
+    tag = spec[0]
+    if tag == "null":
+        return None
+    if tag in ("str", "num", "bool"):
+        return spec[1]
+    if tag == "list":
+        return [value_expected(x) for x in spec[1]]
+    if tag == "enum":
+        return spec[2]
+    if tag == "input":
+        return {k: value_expected(v) for k, v in spec[2].items()}
+    raise common.Infra(f"value spec {spec}")
+
+
+def make_generated_op(rng: Any, idx: int, names: List[str]) -> Dict[str, Any]:
+    opname = ["Search", "Feed", "Ticks", "Watch", "Stream"][idx % 5] + (str(idx) if idx >= 5 else "")
+    field = opname[0].lower() + opname[1:]
+    vars_ = [{"name": n, "type": rng.choice(GEN_TYPES)} for n in names]
+    frags = [[], ["HitParts"], ["HitMore"]][rng.randrange(3)]
+    calls: List[Dict[str, Any]] = []
+    full = {v["name"]: gen_value(rng, v["type"]) for v in vars_}
+    calls.append(full)
+    calls.append({v["name"]: gen_value(rng, v["type"]) for v in vars_ if v["type"].endswith("!")})
+    mixed = {}
+    for v in vars_:
+        if v["type"].endswith("!") or rng.random() < 0.5:
+            mixed[v["name"]] = gen_value(rng, v["type"])
+        elif rng.random() < 0.5:
+            mixed[v["name"]] = ["null"]
+    calls.append(mixed)
+    hit: Dict[str, Any] = {"id": "7", "title": "t"}
+    hit2: Dict[str, Any] = {"id": "8", "title": ""}
+    if frags:
+        hit["score"], hit2["score"] = 1, None
+    if "HitMore" in frags:
+        hit["tags"], hit2["tags"] = ["x"], None
+    return {"name": opname, "field": field, "fragments": frags, "vars": vars_, "calls": calls,
+            "data": [{field: hit}, {field: hit2}]}
+
+
+def generated_sources(case_ops: List[Dict[str, Any]]) -> Tuple[str, str]:
+    fields, ops, used = [], [], set()
+    for op in case_ops:
+        args = ", ".join(f"{v['name']}: {v['type']}" for v in op["vars"])
+        fields.append(f"  {op['field']}" + (f"({args})" if args else "") + ": Hit!")
+        decl = ", ".join(f"${v['name']}: {v['type']}" for v in op["vars"])
+        use = ", ".join(f"{v['name']}: ${v['name']}" for v in op["vars"])
+        sel = "id title" + "".join(f" ...{f}" for f in op["fragments"])
+        ops.append(f"subscription {op['name']}" + (f"({decl})" if decl else "") + " { " + op["field"] + (f"({use})" if use else "") + " { " + sel + " } }")
+        for f in op["fragments"]:
+            used.add(f)
+            if f == "HitMore":
+                used.add("HitParts")
+    sdl = GEN_SDL_HEAD + "type Subscription {\n" + "\n".join(fields) + "\n}\n"
+    return sdl, "\n".join(ops + [GEN_FRAGMENTS[f] for f in sorted(used)]) + "\n"
+
+
+def fixed_generated_cases() -> List[Dict[str, Any]]:
+    """the shadowing names, always run (seed independent)"""
+    import random
+
+    out = []
+    for ci, (snake, ot) in enumerate([(True, False), (False, True)]):
+        rng = random.Random(f"c13-fixed-{ci}")
+        ops = [make_generated_op(rng, 0, ["query", "limit"]), make_generated_op(rng, 1, ["variables", "data"]),
+               make_generated_op(rng, 2, ["response", "topic"]), make_generated_op(rng, 3, ["_query"] if not snake else ["_data", "userId"]),
+               make_generated_op(rng, 4, [])]
+        ops[0]["vars"][0]["type"] = "String!"
+        ops[0]["calls"] = [{"query": ["str", "needle"], "limit": ["num", 3]}, {"query": ["str", "needle"]}]
+        out.append(finish_generated_case(ops, snake, ot, ci, "generated-fixed"))
+    return out
+
+
+def finish_generated_case(ops: List[Dict[str, Any]], snake: bool, ot: bool, n: int, label: str) -> Dict[str, Any]:
+    sdl, text = generated_sources(ops)
+    config: Dict[str, Any] = {"convert_to_snake_case": snake}
+    if ot:
+        config["opentelemetry_client"] = True
+    cfg = dict(CFG_TABLE[n % len(CFG_TABLE)])
+    cfg["init"] = INIT_TABLE[n % len(INIT_TABLE)][1]
+    cfg["opName"] = None  # decided by the generated method
+    return {"kind": "generated", "label": label, "schema": sdl, "ops": text, "config": config, "ot_tracer": bool(ot and n % 2 == 0),
+            "cfg": cfg, "operations": ops}
+
+
+def random_generated_cases(ctx: Ctx, n: int, label: str = "generated") -> List[Dict[str, Any]]:
+    rng = ctx.sub_rng(label)
+    out = []
+    for i in range(n):
+        snake = rng.random() < 0.7
+        ot = rng.random() < 0.3
+        ops = []
+        for k in range(3):
+            names: List[str] = []
+            pool = CLASH_NAMES * 2 + PLAIN_NAMES + UNDERSCORED
+            for _ in range(rng.randint(0, 4)):
+                cand = rng.choice(pool)
+                twin = cand.lstrip("_")
+                # stay outside C03's finding regions: no two variables with the same python name,
+                # never `$x` together with `$_x` (C03-F1 / C03-F4)
+                if any(x.lstrip("_") == twin for x in names):
+                    continue
+                names.append(cand)
+            ops.append(make_generated_op(rng, k, names))
+        out.append(finish_generated_case(ops, snake, ot, i + ctx.seed, label))
+    return out
+
+
+def sub_body(client_src: str, method: str) -> Dict[str, Any]:
+    """which NAME the emitted method uses in which position (twin of SubMethod.Body)"""
+    import ast
+
+    body: Dict[str, Any] = {k: "?" for k in ("queryTarget", "varsTarget", "loopTarget", "callQuery", "callVars", "callKwargs", "yieldArg", "opName")}
+    op_text = None
+    tree = ast.parse(client_src)
+    fn = next((n for n in ast.walk(tree) if isinstance(n, ast.AsyncFunctionDef) and n.name == method), None)
+    if fn is None:
+        return {"body": body, "opText": None}
+    for st in fn.body:
+        if isinstance(st, ast.Assign) and isinstance(st.value, ast.Call) and isinstance(st.value.func, ast.Name) and st.value.func.id == "gql":
+            if len(st.targets) == 1 and isinstance(st.targets[0], ast.Name):
+                body["queryTarget"] = st.targets[0].id
+            if st.value.args and isinstance(st.value.args[0], ast.Constant) and isinstance(st.value.args[0].value, str):
+                op_text = st.value.args[0].value
+        elif isinstance(st, ast.AnnAssign) and isinstance(st.value, ast.Dict) and isinstance(st.target, ast.Name):
+            body["varsTarget"] = st.target.id
+        elif isinstance(st, ast.AsyncFor):
+            if isinstance(st.target, ast.Name):
+                body["loopTarget"] = st.target.id
+            if isinstance(st.iter, ast.Call):
+                for kw in st.iter.keywords:
+                    if kw.arg == "query" and isinstance(kw.value, ast.Name):
+                        body["callQuery"] = kw.value.id
+                    elif kw.arg == "variables" and isinstance(kw.value, ast.Name):
+                        body["callVars"] = kw.value.id
+                    elif kw.arg is None and isinstance(kw.value, ast.Name):
+                        body["callKwargs"] = kw.value.id
+                    elif kw.arg == "operation_name" and isinstance(kw.value, ast.Constant):
+                        body["opName"] = kw.value.value
+            for inner in ast.walk(st):
+                if isinstance(inner, ast.Yield) and isinstance(inner.value, ast.Call) and inner.value.args and isinstance(inner.value.args[0], ast.Name):
+                    body["yieldArg"] = inner.value.args[0].id
+    return {"body": body, "opText": op_text}
+
+
+def _alias_map(cls: Any) -> Dict[str, str]:
+    return {(f.alias or name): name for name, f in cls.model_fields.items()}
+
+
+def build_generated_value(pkg: Any, spec: List[Any]) -> Any:
+    tag = spec[0]
+    if tag == "null":
+        return None
+    if tag in ("str", "num", "bool"):
+        return spec[1]
+    if tag == "list":
+        return [build_generated_value(pkg, x) for x in spec[1]]
+    if tag == "enum":
+        return getattr(pkg, spec[1])(spec[2])
+    if tag == "input":
+        cls = getattr(pkg, spec[1])
+        amap = _alias_map(cls)
+        return cls(**{amap[k]: build_generated_value(pkg, v) for k, v in spec[2].items()})
+    raise common.Infra(f"value spec {spec}")
+
+
+def generated_pv_line(value: Any) -> List[Any]:
+    """a real Python argument -> the driver's PV encoding (a model travels as what pydantic dumps for it)"""
+    import enum as _enum
+
+    from pydantic import BaseModel
+
+    if value is None:
+        return ["null"]
+    if isinstance(value, bool):
+        return ["bool", value]
+    if isinstance(value, _enum.Enum):
+        return ["str", value.value]
+    if isinstance(value, (int, float)):
+        return ["num", value]
+    if isinstance(value, str):
+        return ["str", value]
+    if isinstance(value, BaseModel):
+        return ["model", wire.enc(json.loads(json.dumps(value.model_dump(by_alias=True, exclude_unset=True))))]
+    if isinstance(value, list):
+        return ["list", [generated_pv_line(x) for x in value]]
+    raise common.Infra(f"unsupported argument value {value!r}")
+
+
+def generated_scripts(op: Dict[str, Any]) -> List[List[Dict[str, Any]]]:
+    nx = [fj({"id": "1", "type": "next", "payload": {"data": d}}) for d in op["data"]]
+    return [[ACK, nx[0], PING, nx[1], COMPLETE, nx[0]], [ACK, nx[0], ERROR2]]
+
+
+def _generated_child(root: Any, case: Dict[str, Any]) -> Dict[str, Any]:
+    """inside a forked child: generate the REAL package, import it, drive every generated subscription
+    method against the scripted connection"""
+    import traceback
+
+    from . import e2e, engine
+
+    out: Dict[str, Any] = {"ops": []}
+    try:
+        gen = engine.generate_client(root, case["schema"], case["ops"], case["config"])
+        pkg = engine.import_package(gen)
+    except BaseException as e:  # noqa: BLE001
+        return {"broken": f"{type(e).__name__}: {str(e)[:300]}", "where": traceback.format_exc()[-1200:]}
+    src = gen.read("client.py")
+    mm = e2e.method_map(src)
+    base_name = "async_base_client_open_telemetry" if case["config"].get("opentelemetry_client") else "async_base_client"
+    base_mod = importlib.import_module(f"{gen.package}.{base_name}")
+    exc_mod = importlib.import_module(f"{gen.package}.exceptions")
+    cfg = case["cfg"]
+    for op in case["operations"]:
+        m = mm.get(op["name"])
+        rec: Dict[str, Any] = {"op": op["name"], "runs": []}
+        out["ops"].append(rec)
+        if m is None:
+            rec["missing"] = True
+            continue
+        rec.update({"method": m["method"], "params": m["params"], "dict": [[k, v] for k, v in m["varmap"].items()],
+                    "async_generator": bool(m["async"] and m["generator"])})
+        rec.update(sub_body(src, m["method"]))
+        ret_cls = getattr(pkg, op["name"], None)
+        for ci, call in enumerate(op["calls"]):
+            try:
+                pyargs = {m["varmap"].get(g, g): build_generated_value(pkg, spec) for g, spec in call.items()}
+                arg_lines = [[k, generated_pv_line(v)] for k, v in pyargs.items()]
+            except BaseException as e:  # noqa: BLE001
+                rec["runs"].append({"call": ci, "script": -1, "build_error": f"{type(e).__name__}: {str(e)[:200]}"})
+                continue
+            for si, frames in enumerate(generated_scripts(op)):
+                events: List[Any] = []
+                conn_box: List[Any] = []
+                raws = [raw_frame(f) for f in frames]
+                items: List[Any] = []
+
+                def fake_connect(*args: Any, **kwargs: Any) -> Any:
+                    events.append(["connect", list(args), dict(kwargs)])
+                    conn = ScriptedConnection(raws, events)
+                    conn_box.append(conn)
+                    return conn
+
+                base_mod.ws_connect = fake_connect
+                kw: Dict[str, Any] = dict(url="http://verif.test/graphql", http_client=_shared_http(), ws_url=URL,
+                                          ws_headers=cfg["headers"], ws_origin=cfg["origin"])
+                if cfg["init"] != "<absent>":
+                    kw["ws_connection_init_payload"] = cfg["init"]
+                if case["config"].get("opentelemetry_client"):
+                    kw["tracer"] = "verif-c13" if case["ot_tracer"] else None
+                client = getattr(pkg, "Client")(**kw)
+
+                async def drive() -> Dict[str, Any]:
+                    try:
+                        async for item in getattr(client, m["method"])(**pyargs, **call_kwargs(cfg)):
+                            items.append(item)
+                            events.append(["yield", "<item>"])
+                    except exc_mod.GraphQLClientInvalidMessageFormat:
+                        return {"o": "invalid", "arg": "frame"}
+                    except exc_mod.GraphQLClientGraphQLMultiError as e:
+                        return canon_errors(exc_mod, e)
+                    except Exception as e:  # anything else escaping
+                        return {"o": "internal", "exc": type(e).__name__, "msg": str(e)[:200]}
+                    if events and events[-1] == ["close"]:
+                        return {"o": "completed"}
+                    return {"o": "exhausted"}
+
+                async def guarded() -> Dict[str, Any]:
+                    return await asyncio.wait_for(drive(), CASE_TIMEOUT)
+
+                try:
+                    outcome = asyncio.run(guarded())
+                except asyncio.TimeoutError:
+                    outcome = {"o": "hang"}
+                # what was yielded: class, dump by GraphQL names, and equality with Model.model_validate(data)
+                nexts = [letter(f)[1] for f in prefix_until_terminal(frames[1:])[0] if letter(f)[0] == "next"]
+                ys = []
+                for i, item in enumerate(items):
+                    y: Dict[str, Any] = {"cls": type(item).__name__}
+                    try:
+                        y["dump"] = json.loads(item.model_dump_json(by_alias=True))
+                        y["eq"] = bool(ret_cls is not None and i < len(nexts) and item == ret_cls.model_validate(nexts[i]))
+                    except Exception as e:
+                        y["dump"] = {"not-a-model": repr(item)[:100]}
+                        y["eq"] = False
+                        y["error"] = type(e).__name__
+                    ys.append(y)
+                yi = iter(ys)
+                evs = [(["yield", next(yi)["dump"]] if ev[0] == "yield" else ev) for ev in events]
+                obs = canon_observation(evs, outcome, conn_box)
+                rec["runs"].append({"call": ci, "script": si, "obs": obs, "yields": ys, "arg_lines": arg_lines})
+    return out
+
+
+def _op_definitions(text: str, name: str, fragments: List[str]) -> List[str]:
+    """normalised text of the operation `name` and of the fragments it uses (transitively), authored side"""
+    from graphql import FragmentDefinitionNode, FragmentSpreadNode, OperationDefinitionNode, parse, print_ast
+
+    doc = parse(text)
+    frs = {d.name.value: d for d in doc.definitions if isinstance(d, FragmentDefinitionNode)}
+    op = next(d for d in doc.definitions if isinstance(d, OperationDefinitionNode) and d.name and d.name.value == name)
+    need: List[str] = []
+
+    def visit(node: Any) -> None:
+        for child in getattr(getattr(node, "selection_set", None), "selections", None) or []:
+            if isinstance(child, FragmentSpreadNode):
+                if child.name.value not in need:
+                    need.append(child.name.value)
+                    visit(frs[child.name.value])
+            else:
+                visit(child)
+
+    visit(op)
+    return sorted([print_ast(op)] + [print_ast(frs[n]) for n in need])
+
+
+def generated_oracle(case: Dict[str, Any], op: Dict[str, Any], rec: Dict[str, Any], run: Dict[str, Any]) -> List[Tuple[str, Optional[str], str]]:
+    """The property's clause for the generated method, stated on the recorded real trace."""
+    from graphql import parse, print_ast
+
+    fails: List[Tuple[str, Optional[str], str]] = []
+    if "build_error" in run:
+        return [("generated-arguments-rejected", None, run["build_error"])]
+    obs = run["obs"]
+    oc = obs["outcome"]
+    frames = generated_scripts(op)[run["script"]]
+    if oc["o"] == "hang":
+        return [("hang", None, "generated method")]
+    sends = [e[1] for e in obs["events"] if e[0] == "send"]
+    subs = [s for s in sends if isinstance(s, dict) and s.get("type") == PROTO["subscribe"]]
+    if len(subs) != 1:
+        why = f"{len(subs)} subscribe messages; outcome {json.dumps(oc, default=repr)[:200]} {obs.get('exc_msg', '')}"
+        return [("generated-not-exactly-one-subscribe", None, why)]
+    payload = subs[0].get("payload") or {}
+    q = payload.get("query")
+    try:
+        got_defs = sorted(print_ast(d) for d in parse(q).definitions)
+    except Exception as e:  # GraphQLError, TypeError (not a string)
+        got_defs = None
+        fails.append(("generated-subscribe-wrong-query", None, f"payload.query does not parse ({type(e).__name__}): {q!r}"[:300]))
+    if got_defs is not None and got_defs != _op_definitions(case["ops"], op["name"], op["fragments"]):
+        fails.append(("generated-subscribe-wrong-query", None, f"payload.query is not the authored operation {op['name']} (+ its fragments): {q!r}"[:300]))
+    if payload.get("operationName") != op["name"]:
+        fails.append(("generated-subscribe-wrong-operation-name", None, repr(payload.get("operationName"))))
+    want_vars = {g: value_expected(spec) for g, spec in op["calls"][run["call"]].items()}
+    got_vars = payload.get("variables")
+    if not common.same_json(got_vars if got_vars is not None else {}, want_vars):
+        fails.append(("generated-subscribe-wrong-variables", None, f"sent {json.dumps(got_vars)[:200]} expected {json.dumps(want_vars)[:200]}"))
+    pre, term = prefix_until_terminal(frames[1:])
+    nexts = [letter(f)[1] for f in pre if letter(f)[0] == "next"]
+    ys = run["yields"]
+    if len(ys) != len(nexts) or any(y["cls"] != op["name"] or not y["eq"] or not common.same_json(y["dump"], d) for y, d in zip(ys, nexts)):
+        fails.append(("generated-yield-not-the-validated-model", None,
+                      f"yielded {json.dumps(ys, default=repr)[:300]} for next data {json.dumps(nexts)[:200]}"))
+    tl = letter(term)[0] if term is not None else None
+    if (tl == "complete" and oc["o"] != "completed") or (tl == "error" and oc["o"] != "multi"):
+        fails.append(("generated-method-wrong-outcome", None, repr(oc)[:200]))
+    return fails
+
+
+def generated_model_line(case: Dict[str, Any], rec: Dict[str, Any], run: Dict[str, Any], frames: List[Dict[str, Any]]) -> Dict[str, Any]:
+    cfg = case["cfg"]
+    c: Dict[str, Any] = {"url": URL, "headers": wire.enc(cfg["headers"] or {}), "origin": cfg["origin"], "query": "", "opName": None,
+                         "kwargs": wire.enc(cfg["kwargs"]), "opId": OP_ID}
+    if cfg["init"] != "<absent>":
+        c["init"] = wire.enc(cfg["init"])
+    if cfg["extraHeaders"] != "<absent>":
+        c["extraHeaders"] = wire.enc(cfg["extraHeaders"])
+    ot = bool(case["config"].get("opentelemetry_client"))
+    return {"op": "method", "client": "ot" if ot else "plain", "tracer": bool(case["ot_tracer"]), "cfg": c, "params": rec["params"],
+            "dict": rec["dict"], "opName": rec["body"]["opName"] if isinstance(rec["body"]["opName"], str) else "", "opText": rec["opText"] or "",
+            "args": run["arg_lines"], "frames": [frame_line(f) for f in frames]}
+
+
+def judge_generated(ctx: Ctx, st: Optional[LeanStatus], cases: List[Dict[str, Any]], res: Result, compare: bool = True) -> None:
+    from . import engine
+
+    child = engine.with_scratch(_generated_child)
+    outs = fork_map(lambda case: child(case), cases, timeout=1500.0)
+    lines: List[Dict[str, Any]] = []
+    refs: List[Tuple[Dict[str, Any], Dict[str, Any], Dict[str, Any], Dict[str, Any]]] = []
+    for case, (status, val) in zip(cases, outs):
+        res.seen([case["schema"], case["ops"], case["config"]], nontrivial=True)
+        res.count("generated:packages")
+        if status != "ok":
+            raise common.Infra(f"generated-method child crashed: {val}")
+        if "broken" in val:
+            res.failures.append(Failure("generated-client-unusable", None, case, val["broken"] + " | " + val.get("where", "")[-300:]))
+            continue
+        for op, rec in zip(case["operations"], val["ops"]):
+            inp = {**case, "only_op": op["name"]}
+            if rec.get("missing") or not rec.get("async_generator"):
+                res.failures.append(Failure("generated-subscription-method-missing", None, inp, json.dumps(rec, default=repr)[:300]))
+                continue
+            for name in [v["name"] for v in op["vars"]]:
+                res.count("generated:variable:" + ("clash" if name in CLASH_NAMES else "underscored" if name in UNDERSCORED else "plain"))
+            for run in rec["runs"]:
+                res.count("generated:runs")
+                for sig, trigger, detail in generated_oracle(case, op, rec, run):
+                    res.count("oracle-failure:None|" + sig)
+                    res.failures.append(Failure(sig, trigger, {**inp, "only_call": run.get("call"), "only_script": run.get("script")},
+                                                f"{op['name']} via {rec.get('method')}: {detail}"))
+                if "obs" in run:
+                    lines.append(generated_model_line(case, rec, run, generated_scripts(op)[run["script"]]))
+                    refs.append((inp, op, rec, run))
+    if compare and st is not None and st.driver_ok and lines:
+        for (inp, op, rec, run), m in zip(refs, common.run_driver(ctx.prop, lines)):
+            if m["body"] != rec["body"]:
+                add_mismatch(res, Mismatch("generated-method-body", {**inp, "method": rec.get("method")}, rec["body"], m["body"]))
+            dm = decode_model({**m, "letters": [], "trig": {}})
+            if not common.same_json(strip_obs(run["obs"]), {"events": dm["events"], "outcome": dm["outcome"]}):
+                add_mismatch(res, Mismatch("generated-method-run", {**inp, "only_call": run["call"], "only_script": run["script"]},
+                                           strip_obs(run["obs"]), {"events": dm["events"], "outcome": dm["outcome"]}))
+    # keep the stored failures bounded
+    kept: Dict[str, int] = {}
+    pruned = []
+    for f in res.failures:
+        kept[f.key()] = kept.get(f.key(), 0) + 1
+        if kept[f.key()] <= MAX_KEPT_PER_KEY:
+            pruned.append(f)
+    res.failures[:] = pruned
+
+
+def run_generated(ctx: Ctx, st: Optional[LeanStatus], res: Result, n_random: int, compare: bool = True) -> None:
+    cases = fixed_generated_cases() + random_generated_cases(ctx, n_random)
+    judge_generated(ctx, st, cases, res, compare)
+    ctx.log(f"generated subscription methods: {len(cases)} real packages driven")
+
+
 # --------------------------------------------------------------------------------------------
 # entry points
 # --------------------------------------------------------------------------------------------
@@ -1428,6 +1909,10 @@ def fingerprint_items() -> List[Tuple[str, Optional[str]]]:
               (o, "AsyncBaseClientOpenTelemetry._send_subscribe_with_telemetry"),
               (o, "AsyncBaseClientOpenTelemetry._handle_ws_message_with_telemetry")]
     items += [(o, f"AsyncBaseClientOpenTelemetry.{m}") for m in WS_METHODS]
+    gen_rel = "ariadne_codegen/client_generators/client.py"
+    items += [(gen_rel, f"ClientGenerator.{m}") for m in ("add_method", "get_variable_names", "_generate_subscription_method_def",
+                                                           "_generate_operation_str_assign", "_generate_variables_assign",
+                                                           "_generate_async_generator_loop", "_generate_yield_parsed_obj")]
     items += [(clients.EXC_REL, "GraphQLClientInvalidMessageFormat"), (clients.EXC_REL, "GraphQLClientGraphQLMultiError.from_errors_dicts"),
               (clients.EXC_REL, "GraphQLClientGraphQLError.from_dict")]
     return items
@@ -1493,6 +1978,7 @@ def run(ctx: Ctx, st: Optional[LeanStatus]) -> Result:
     run_loopback(ctx, st, res)
     validate_connect_spec(ctx, st, res)
     ctx.log("loopback done")
+    run_generated(ctx, st, res, ctx.budget(14, 90))
     todo = product_cases()
     ex = exhaustive_cases(ctx)
     todo += ex
@@ -1539,6 +2025,7 @@ def search(ctx: Ctx) -> Result:
             n += 1
             todo.append(make_case(lead + s, n, n // 5, n // 3, label="search"))
     judge_parallel(ctx, None, todo, res, compare=False)
+    run_generated(ctx, None, res, 60, compare=False)
     return res
 
 
@@ -1549,6 +2036,16 @@ def replay(ctx: Ctx, payload: Dict[str, Any]) -> int:
         return 1
     rc = 0
     variants = [(inp["client"], inp["tracer"])] if "client" in inp else VARIANTS
+    if inp.get("kind") == "generated":
+        sub = Result()
+        case = {k: v for k, v in inp.items() if not k.startswith("only_")}
+        if "only_op" in inp:
+            case["operations"] = [o for o in case["operations"] if o["name"] == inp["only_op"]] or case["operations"]
+        judge_generated(ctx, None, [case], sub, compare=False)
+        for f in sub.failures:
+            print(f.signature, "-", f.detail[:400])
+        print("->", sorted({f.signature for f in sub.failures}) or "ok")
+        return 1 if sub.failures else 0
     if inp.get("kind", "").startswith("loopback"):
         for client, tracer in variants:
             got = loopback(client, tracer, inp, shim=inp["kind"] == "loopback-shim")
